@@ -121,6 +121,7 @@ enum Outcome : uint8_t { O_NONE = 0, O_REJECT, O_ACCEPT_IDENT, O_ACCEPT_USABLE, 
 enum Phase : uint32_t { P_IDLE = 0, P_BASELINE, P_READ, P_TAILCHECK, P_LEAKCHECK };
 
 static const uint32_t MAXF = 12000;
+static const uint64_t LARGE_BEFORE_REJECT = 64ull << 20;   // a rejected image may not have requested a block larger than its size + 64 MiB
 static const uint32_t MAXREC = 48;
 static const uint32_t BASELINE_IDX = 0xffffffffu;
 
@@ -151,9 +152,11 @@ inline void shm_rec(uint32_t idx, const char* cls, const std::string& detail) {
 }
 
 // ---- child-side allocation watch
+inline uint64_t& fault_max_alloc() { static uint64_t m = 0; return m; }   // largest single request while the current fault is read
 inline void malloc_hook(const volatile void*, size_t sz) {
   Shm* s = shm();
   if (!s) return;
+  if (sz > fault_max_alloc()) fault_max_alloc() = sz;
   if (sz > s->max_alloc) s->max_alloc = sz;
   if (sz > (64u << 20)) {
     s->n_large_alloc = s->n_large_alloc + 1;
@@ -270,12 +273,22 @@ inline void child_run(const Target& t, const Bytes& img, const std::vector<Fault
       datasketches::random_utils::rand.seed(12345); datasketches::random_utils::random_bit.seed(12345);   // same engine state as for the baseline read-out
       diff[0] = 0; what[0] = 0;
       const size_t before = __sanitizer_get_current_allocated_bytes();
+      fault_max_alloc() = 0;
       const Attempt a = attempt(t, b.p, n, !trunc, trunc ? &baseline : nullptr, diff, sizeof diff, what, sizeof what);
       const bool use_threw = a.status == 2;
       const size_t after = __sanitizer_get_current_allocated_bytes();
       if (rep == 0) {
         if (a.status == 3) { out = O_VIOL; shm_rec(i, "non-std-exception", "an exception not derived from std::exception left the reader"); }
-        else if (a.status == 0) out = O_REJECT;
+        else if (a.status == 0) {
+          out = O_REJECT;
+          // second, tighter allocation oracle: an image that ends up rejected must not have asked for a block far beyond
+          // anything its own size could justify on the way (corpus images are < 8 KiB)
+          if (fault_max_alloc() > n + LARGE_BEFORE_REJECT) {
+            out = O_VIOL;
+            shm_rec(i, "large-allocation-before-reject", "the reader requested a block of " + std::to_string(fault_max_alloc()) +
+                    " bytes for an image of " + std::to_string(n) + " bytes and only then rejected it (" + what + ")");
+          }
+        }
         else if (a.status == 2) out = O_ACCEPT_THREW;
         else if (a.status == 4) {
           if (trunc) { out = O_VIOL; shm_rec(i, "accepted-different", std::string("prefix accepted by the reader, then ") + what); }
@@ -469,7 +482,7 @@ inline ChildEnd fork_slice(const Target& t, const Bytes& img, const std::vector<
   return ce;
 }
 
-inline std::vector<Fault> enumerate_faults(const Bytes& img, Rng& r) {
+inline std::vector<Fault> enumerate_faults(const Bytes& img, Rng& r, size_t pre) {
   std::vector<Fault> fs;
   const size_t S = img.size();
   if (S <= 4096) {
@@ -486,9 +499,13 @@ inline std::vector<Fault> enumerate_faults(const Bytes& img, Rng& r) {
   for (size_t pos = 0; pos < np; ++pos) {
     const uint8_t b = img[pos];
     const uint8_t cand[8] = {0x00, 0x01, 0x7f, 0x80, 0xff, static_cast<uint8_t>(b ^ 1), static_cast<uint8_t>(b ^ 0x80), static_cast<uint8_t>(b + 1)};
+    // preamble bytes additionally take every single-bit value and b<<1, b>>1, so that each size / count field is driven
+    // through all magnitudes (also the ones between "still plausible" and "rejected as absurd")
+    const uint8_t wide[8] = {0x02, 0x04, 0x08, 0x10, 0x20, 0x40, static_cast<uint8_t>(b << 1), static_cast<uint8_t>(b >> 1)};
     bool used[256] = {false};
     used[b] = true;
     for (uint8_t c : cand) if (!used[c]) { used[c] = true; fs.push_back({F_CORRUPT, static_cast<uint32_t>(pos), c}); }
+    if (pos < pre) for (uint8_t c : wide) if (!used[c]) { used[c] = true; fs.push_back({F_CORRUPT, static_cast<uint32_t>(pos), c}); }
   }
   if (fs.size() > MAXF) fs.resize(MAXF);
   return fs;
@@ -533,8 +550,8 @@ inline void run_target_case(const Target& t, uint64_t variant, Rng& r) {
   count("target:" + tk);
   count("image_bytes", img.size());
   if (img.size() > 8192) count("images_over_8k");
-  std::vector<Fault> faults = enumerate_faults(img, r);
   const size_t pre = t.preamble ? std::min(t.preamble(img), img.size()) : default_preamble(t.family, img);
+  std::vector<Fault> faults = enumerate_faults(img, r, pre);
   auto outside = [&](const Fault& f) { return f.type == F_CORRUPT && f.a >= pre; };
   count("preamble_bytes", pre);
   memset(s->outcome, 0, sizeof s->outcome);
